@@ -1,6 +1,7 @@
 package verifsim
 
 import (
+	"strings"
 	"flag"
 	"fmt"
 	"math/rand"
@@ -14,6 +15,8 @@ import (
 // carries the reference end state. TraceObs compares ITS OWN tracked store with that reference.
 
 type StagedScenario struct {
+	// NoDrift: the scenario ends paused, so third-party drift is (by C09) not repaired; only faults and crashes apply
+	NoDrift bool
 	Name   string
 	Stages []func(w *World)
 }
@@ -39,6 +42,10 @@ func StagedScenarios() []StagedScenario {
 		{Name: "c10-handover", Stages: []func(*World){mk("a1", two), mk("a2", h2, "a1"),
 			func(w *World) { w.EnvSetLifecycle(KOS("a1"), "Paused") },
 			func(w *World) { w.EnvSetLifecycle(KOS("a1"), "Archived") }}},
+		// a stand-alone ObjectSet is paused and then drifts: it must keep observing (also after a restart while paused)
+		{Name: "c10-paused-drift", NoDrift: true, Stages: []func(*World){mk("a1", two),
+			func(w *World) { w.EnvSetLifecycle(KOS("a1"), "Paused") },
+			func(w *World) { w.EnvDelete(Key{"", "ConfigMap", NS, "cm2"}, false) }}},
 		{Name: "c10-teardown", Stages: []func(*World){mk("a1", two), func(w *World) { w.EnvDelete(KOS("a1"), false) }}},
 		{Name: "c10-archive", Stages: []func(*World){mk("a1", two), func(w *World) { w.EnvSetLifecycle(KOS("a1"), "Archived") }}},
 		{Name: "c10-delegated", Stages: []func(*World){mk("a1", deleg), func(w *World) { w.EnvDelete(KOS("a1"), false) }}},
@@ -211,6 +218,9 @@ func init() {
 			var cands []cand
 			for at := 0; at < calls; at++ {
 				for _, k := range kinds {
+					if sc.NoDrift && strings.HasPrefix(k, "drift") {
+						continue
+					}
 					cands = append(cands, cand{[]disturbance{{at, k}}, fmt.Sprintf("%s@%d", k, at)})
 				}
 			}
